@@ -1,5 +1,5 @@
 """C08 / C16: collector-level checks (model M_gc, correspondence level L-gc)."""
-import os, random, re, time
+import subprocess, os, random, re, time
 from common import *
 import gcgen
 
@@ -92,23 +92,33 @@ def check_c08(tier, seed):
     exhaustive = None
     if tier == "thorough" or os.environ.get("VERIF_GC_ENUM"):
         exhaustive = []
-        for (nobj, ln) in ([(3, 7), (2, 9)] if tier == "thorough" else [(2, 6)]):
+        for (nobj, ln) in ([(3, 7), (2, 8), (3, 8)] if tier == "thorough" else [(2, 6)]):
             sp, op, mp = (os.path.join(WORK, f"enum{nobj}_{ln}.{e}") for e in ("gc", "h", "m"))
             rc, out, err = run([HBIN, "gc-enum", str(nobj), str(ln), sp, op], timeout=3000)
             st = json.loads(out.strip().replace("None", "null")) if rc == 0 else {"error": err[-300:]}
-            with open(sp, "rb") as f:
-                rc2, mout, merr = run([DRIVER, "gc"], stdin=f.read(), timeout=3000)
+            with open(sp, "rb") as fi, open(mp, "wb") as fo:
+                rc2 = subprocess.run([DRIVER, "gc"], stdin=fi, stdout=fo, timeout=3000).returncode
             strip = lambda t: re.sub(r" C:\d+/\d+", "", t)
-            same = (rc2 == 0 and strip(mout) == strip(open(op).read()))
+            # line-by-line comparison (the files are gigabytes)
+            same, j = (rc2 == 0), 0
+            first = None
+            if same:
+                with open(op) as fh, open(mp) as fm:
+                    for j, (a, b) in enumerate(zip(fh, fm)):
+                        if a != b and strip(a) != strip(b):
+                            same = False; first = (j, a.rstrip("\n"), b.rstrip("\n")); break
             st.update(nobj=nobj, length=ln, model_equal=same)
             exhaustive.append(st)
             if not same:
-                hl = open(op).read().split("\n"); ml = mout.split("\n"); sl = open(sp).read().split("\n")
-                j = next((j for j in range(min(len(hl), len(ml))) if hl[j] != ml[j]), 0)
-                a = j
-                while a > 0 and sl[a - 1] != "---": a -= 1
-                res["disagree"].append((-2, j - a, hl[j], ml[j])); scripts.append(sl[a:j + 1])
-                res["disagree"][-1] = (len(scripts) - 1, j - a, hl[j], ml[j])
+                j, h1, m1 = first if first else (0, "<model driver failed>", "")
+                sl = []
+                with open(sp) as fs:
+                    for k, l in enumerate(fs):
+                        l = l.rstrip("\n")
+                        if k > j: break
+                        sl = [] if l == "---" else sl + [l]
+                scripts.append(sl)
+                res["disagree"].append((len(scripts) - 1, len(sl) - 1, h1, m1))
             if st.get("truth_failures"):
                 res["truth"].append((-2, 0, st.get("first_failure")))
             for p in (sp, op, mp):
